@@ -118,6 +118,7 @@ TEMPLATES = [
     ('prefetch2_catch', _u('prefetch', workers=2, buffer=2, catch=['VErrA', 'VErrC'])),
     ('prefetch1_catch', _u('prefetch', workers=1, buffer=1, catch=True)),
     ('catch_a', _u('catch', exc='VErrA')),
+    ('catch_tuple', _u('catch', exc=['VErrA', 'VErrC'])),
     ('concat_list', _concat('list')),
     ('concat_dict', _concat('dict')),
     ('intersperse', _intersperse),
